@@ -44,6 +44,25 @@ func runReplay(prop, file string) int {
 		}
 		return 0
 	}
+	if op == "parse_duration" || op == "format_duration" || op == "duration_in_statement" {
+		o := newOut(os.TempDir() + "/verif-replay")
+		switch op {
+		case "parse_duration":
+			c08Parse(o, text, "replay")
+		case "format_duration":
+			var d int64
+			fmt.Sscan(rp["d"].(string), &d)
+			c08Format(o, d, "replay")
+		default:
+			c08InStatement(o, rp["lit"].(string))
+		}
+		o.finish()
+		if o.nfail > 0 {
+			fmt.Println("still violates the property: see", os.TempDir()+"/verif-replay/direct.txt")
+			return 1
+		}
+		return 0
+	}
 	if op == "scan" {
 		o := newOut(os.TempDir() + "/verif-replay")
 		lexOne(o, text, "replay", true)
